@@ -54,6 +54,7 @@ func main() {
 	tablesOut := flag.String("tables-out", "", "output Lean file for the translated host/MAC table operations (F14, Gen/TablesGen.lean); default: not written")
 	icmp6Out := flag.String("icmp6-out", "", "output Lean file for the translated ICMPv6 / NDP spoofing handler (F15, Gen/Icmp6Gen.lean); default: not written")
 	sendOut := flag.String("send-out", "", "output Lean file for the translated send paths (F15, Gen/Senders.lean); default: not written")
+	dhcpSrvOut := flag.String("dhcpsrv-out", "", "output Lean file for the translated DHCPv4 server functions (F15, Gen/DhcpSrvGen.lean); default: not written")
 	flag.Parse()
 	cfg := &packages.Config{Mode: packages.NeedName | packages.NeedFiles | packages.NeedSyntax | packages.NeedTypes | packages.NeedTypesInfo | packages.NeedImports | packages.NeedDeps, Dir: *repo, Tests: false}
 	pkgs, err := packages.Load(cfg, "./", "./handlers/...", "./fastlog")
@@ -129,6 +130,14 @@ func main() {
 		var tb strings.Builder
 		tablesFacts(root, &tb)
 		if err := os.WriteFile(*tablesOut, []byte(tb.String()), 0o644); err != nil {
+			fmt.Fprintln(os.Stderr, err)
+			os.Exit(1)
+		}
+	}
+	if *dhcpSrvOut != "" {
+		var db strings.Builder
+		hpFacts(pkgs, dhcpDict, &db)
+		if err := os.WriteFile(*dhcpSrvOut, []byte(db.String()), 0o644); err != nil {
 			fmt.Fprintln(os.Stderr, err)
 			os.Exit(1)
 		}
